@@ -224,6 +224,10 @@ class Enumerator(object):
                     out.append(p)
                     continue
                 known = p.value[1] if (p.value is not None and p.value[0] == 'lit' and p.value[1] in ('true', 'false')) else None
+                if known is None and p.value is not None and p.value[0] == 'bin' and p.value[1] in ('==', '!='):
+                    a_, b_ = p.value[2], p.value[3]
+                    if a_ is not None and b_ is not None and a_[0] in ('path', 'lit') and b_[0] in ('path', 'lit') and (a_[0] == 'lit' or canon.is_variant_path(a_)) and (b_[0] == 'lit' or canon.is_variant_path(b_)):
+                        known = 'true' if ((a_ == b_) == (p.value[1] == '==')) else 'false'
                 if known != 'false':
                     tp = p.fork()
                     if known is None:
@@ -254,6 +258,21 @@ class Enumerator(object):
                 allv = set(x[0] for x in info[1]) if info is not None else None
                 earlier_preds = []
                 nested_seen = {}
+                kv = known_variant(v)
+                if kv is not None and allv is not None and kv in allv and all(a.get('guard') is None for a in node['arms']):
+                    # the scrutinee's variant is decided by the path itself: only the first arm that takes it runs
+                    for a in node['arms']:
+                        w = canon.whole(a['pat'], ty)
+                        if w is None:
+                            kv = None
+                            break
+                        if w == 'ALL' or kv in w:
+                            ap = p.fork()
+                            self.ev.bind_pat(a['pat'], v, ap.env)
+                            out.extend(self.run(a['body'], ap))
+                            break
+                    if kv is not None:
+                        continue
                 for a in node['arms']:
                     pred, names = canon.pattern_pred(a['pat'], ty, earlier)
                     if pred == 'unreachable':
@@ -515,6 +534,52 @@ class Enumerator(object):
         return cur
 
 
+def known_variant(v):
+    """The variant a term certainly is (a unit variant path or a variant constructor application), else None."""
+    if v is None:
+        return None
+    if v[0] == 'path' and canon.is_variant_path(v):
+        return v[1].split('::')[-1]
+    if v[0] == 'call' and v[1] in ('Ok', 'Err', 'Some'):
+        return v[1]
+    if v[0] == 'path' and v[1] == 'None':
+        return 'None'
+    if v[0] == 'call' and canon.is_variant_path(('path', v[1])) and not v[1].startswith(('std::', 'core::')):
+        return v[1].split('::')[-1]
+    return None
+
+
+def merge_rows(rows):
+    """Two paths with the same effects, value and exit whose conditions differ in one literal only (the same
+    subject, complementary predicates) are one path that does not depend on that test."""
+    rows = list(rows)
+    changed = True
+    while changed:
+        changed = False
+        for i in range(len(rows)):
+            for j in range(i + 1, len(rows)):
+                a, b = rows[i], rows[j]
+                if a.effects != b.effects or a.done != b.done or a.value_str() != b.value_str() or len(a.conds) != len(b.conds):
+                    continue
+                diff = [k for k in range(len(a.conds)) if a.conds[k] != b.conds[k]]
+                if len(diff) != 1:
+                    continue
+                (sa, pa), (sb, pb) = a.conds[diff[0]], b.conds[diff[0]]
+                if sa != sb:
+                    continue
+                comp = (isinstance(pa, bool) and isinstance(pb, bool) and pa != pb) or \
+                    (isinstance(pa, str) and isinstance(pb, str) and (canon.negate_pred(pa) == pb or canon.negate_pred(pb) == pa))
+                if not comp:
+                    continue
+                a.conds = a.conds[:diff[0]] + a.conds[diff[0] + 1:]
+                del rows[j]
+                changed = True
+                break
+            if changed:
+                break
+    return rows
+
+
 def table(ctx, fnpath, param_names=None):
     """All paths of a function as rows."""
     fn = ctx.fn(fnpath)
@@ -529,4 +594,4 @@ def table(ctx, fnpath, param_names=None):
         if param_names and i < len(param_names):
             nm = ('var', param_names[i], -(i + 1))
         en.ev.bind_pat(prm, nm, p.env)
-    return en.run(fn['hir'], p)
+    return merge_rows(en.run(fn['hir'], p))
